@@ -81,6 +81,37 @@ def programs(tier, b, P):
     return progs
 
 
+def seq_programs(tier="thorough"):
+    """State that survives between calls: the same object is used by two gadgets, the first possibly inside a guarded region
+    (guard 0: its wires are unconstrained).  End-to-end instances: only the program inputs are fixed."""
+    progs = []
+    ops = {
+        "to_bits": lambda r: {"op": "meth", "name": "to_bits", "a": r},
+        "rshift": lambda r: {"op": "bin", "name": "rshift", "a": r, "b": {"c": 1}},
+        "lt": lambda r: {"op": "bin", "name": "lt", "a": r, "b": {"c": 1}},
+        "check_positive": lambda r: {"op": "meth", "name": "check_positive", "a": r},
+        "invert": lambda r: {"op": "un", "name": "invert", "a": r},
+        "and": lambda r: {"op": "bin", "name": "and", "a": r, "b": r},
+    }
+    quick = tier == "quick"
+    for o1 in (("to_bits", "lt") if quick else ("to_bits", "rshift", "lt", "check_positive", "and")):
+        for o2 in (("to_bits", "rshift", "invert") if quick else ("to_bits", "rshift", "lt", "invert", "and")):
+            for x in ((1, 2) if quick else (0, 1, 2, 3)):
+                for g in (("none", 0) if quick else ("none", 0, 1)):
+                    B = gen.Builder("seq/%s-%s/%d/%s" % (o1, o2, x, g), "plain", None, {"op": "seq_%s_%s" % (o1, o2), "kinds": "S", "a": x, "gmode": str(g)})
+                    rx = B.opnd(("S", x))
+                    if g == "none":
+                        B.add(ops[o1](rx))
+                    else:
+                        rg = B.opnd(("SB", g))
+                        B.add({"op": "guarded", "cond": rg, "body": [ops[o1](rx)]})
+                    st = ops[o2](rx)
+                    st["tag"] = "main"
+                    B.add(st)
+                    progs.append(B.build())
+    return progs
+
+
 def heavy(i):
     """Families built on the division gadget: their accepted-witness space is large (known finding), so they are
     searched exhaustively in the tiny field and only re-confirmed on a few instances in the field with margin."""
@@ -128,6 +159,17 @@ def main(tier):
         collect(run, cfg, tier, hv, cap)
         if run.violations:
             break
+    if not run.violations:
+        # sequences on the same object, end to end (tiny field: wires of a false-guard region are all free)
+        scfg = {"P": 13, "bitlength": 2, "resolution": 1}
+        sp = seq_programs(tier)
+        st = common.run_programs(scfg, sp)
+        insts = [i for i in (instances.from_trace_e2e(t, "unique") for t in st) if i and i["out"] == "ok" and i["res"]]
+        for i in insts:
+            run.nontrivial.add((13, i["op"], "e2e", i["gmode"]))
+        run.evaluations += len(insts)
+        run.notes.append("P=13 b=2 end-to-end sequences on one object: %d instances" % len(insts))
+        common.validate_insts(run, "Soundness", insts, cfg="Soundness_C02.cfg", label="e2e sequences", programs=sp, chunk=25, parallel=8)
     run.exhaustive = True
     return run.finish(RULE, assumptions=["uniqueness is decided per operation with operands fixed; longer programs rely on composition",
                                          "small-prime instantiation; no-wrap margin P > 2^(2b+2) for the main families, the division-based families (known finding) are enumerated in a tiny field and re-confirmed on a few instances with margin; transfer to the 254-bit field assumes the gadgets are uniform in the field"],
